@@ -4,8 +4,10 @@ package verifsim
 
 import (
 	"context"
+	"crypto/sha256"
 	"errors"
 	"fmt"
+	"github.com/transparency-dev/witness/internal/persistence"
 	"os"
 	"strings"
 	"sync"
@@ -144,6 +146,7 @@ func (s *stubWitness) Update(ctx context.Context, logID string, oldSize uint64, 
 }
 
 type c13Result struct {
+	neverReturned  bool // FeedOnce had not returned 10 simulated minutes after its context ended
 	runReturnDelay time.Duration
 	calls          []*feedCall
 	out            []byte
@@ -174,21 +177,61 @@ func c13Exec(t *testing.T, p *Plan) (r *c13Result) {
 		r.W = w
 		ld := w.Logs[0]
 		ex := p.Cfg.Extra
-		wsize, lsize := ex["wsize"], uint64(ex["lsize"])
+		wsize, lsize := ex["wsize"], uint64(ex["lsize"]) // a negative lsize is a size >= 2^63
 		wbranch, lbranch := int(ex["wbranch"]), int(ex["lbranch"])
 		mk := func(branch int, size uint64) []byte {
-			h := ld.Branches[branch].Root(size)
+			var h [32]byte
+			if size > 1<<40 {
+				h = sha256.Sum256([]byte(fmt.Sprintf("root of a tree of %d leaves", size))) // beyond what the reference tree computes: any root will do for a stub witness
+			} else {
+				h = ld.Branches[branch].Root(size)
+			}
 			text := CheckpointText(ld.Origin, size, h[:])
 			cp := &SignedCP{Origin: ld.Origin, Branch: branch, Size: size, Root: h[:], Text: text}
 			return MakeNote(text, w.Sign(ld.KeyIdx, cp))
 		}
 		fw := &feedWorld{pattern: p.Cfg.Notes["fail"], cancelAt: -1}
+		var closeBase func()
+		defer func() {
+			if closeBase != nil {
+				closeBase()
+			}
+		}()
 		var realW *witness.Witness
 		if ex["real"] == 1 {
 			known, _ := w.KnownLogs()
 			signers, _ := w.Signers()
 			var err error
-			base := inmemory.NewPersistence()
+			var base persistence.LogStatePersistence = inmemory.NewPersistence()
+			if ex["sqlite"] == 1 {
+				// file-backed SQLite with the production one-connection pool, opened through the fault-injecting driver
+				q := p.Clone()
+				q.Cfg.Store, q.Cfg.Seam = "sqlite", "driver"
+				st, closeStore, err := openStoreFor(q)
+				if err != nil {
+					r.infra = err.Error()
+					return
+				}
+				closeBase = closeStore
+				base = st
+				if k, ok := ex["execfail"]; ok {
+					nexec := int64(0)
+					mainDrvFault = func(op, arg string) error {
+						if op != "Exec" {
+							return nil
+						}
+						nexec++
+						if nexec == k+2 { // the first Exec is Init's CREATE TABLE, the second one seeds the witness
+							fw.mu.Lock()
+							fw.fired++
+							fw.mu.Unlock()
+							return injected("busy")
+						}
+						return nil
+					}
+					defer func() { mainDrvFault = nil }()
+				}
+			}
 			var smu sync.Mutex
 			sfired := 0
 			var sfail int64 = -1
@@ -240,7 +283,7 @@ func c13Exec(t *testing.T, p *Plan) (r *c13Result) {
 		} else {
 			sw := &stubWitness{wkey: w.WitKeys[0].Key}
 			if wsize >= 0 {
-				cp := mk(wbranch, uint64(wsize))
+				cp := mk(wbranch, c13WSize(ex))
 				pn, _ := ParseNote(cp)
 				sw.latest = append(cp, []byte(sw.wkey.SignCosigV1(pn.Text, uint64(time.Now().Unix())))...)
 			}
@@ -379,6 +422,24 @@ func c13Exec(t *testing.T, p *Plan) (r *c13Result) {
 		}
 		if !r.returned {
 			cancel()
+			for i := 0; i < 600 && !r.returned; i++ {
+				synctest.Wait()
+				select {
+				case <-done:
+					r.returned = true
+				default:
+					time.Sleep(time.Second)
+				}
+			}
+			if !r.returned {
+				// FeedOnce outlives its context for good (it waits for something that never comes): note it, then pull the store
+				// away from under it so that the bubble can be left
+				r.neverReturned = true
+				if closeBase != nil {
+					closeBase()
+					closeBase = nil
+				}
+			}
 			<-done
 		}
 		r.simTime = time.Since(start)
@@ -542,6 +603,10 @@ func oracleC13(p *Plan, r *c13Result) []Violation {
 			add("ran_after_cancel", "call_after_cancel_in_backoff", "the context ended while the feeder was backing off, yet it made further calls")
 		}
 	}
+	if r.neverReturned {
+		add("no_retry_success", "never_returns", fmt.Sprintf("FeedOnce neither finished nor stopped when its context ended (%d transient failures injected; calls: %s): it waits for something that never comes", r.fired, callString(r.calls)))
+		return out
+	}
 	if cancelled || p.Cfg.Notes["cp"] == "fetchfail" {
 		if p.Cfg.Notes["cp"] == "fetchfail" && (r.err == nil || len(byAttempt) > 0) {
 			add("wrong_return", "fetch_failed", "fetching the checkpoint failed, yet FeedOnce went on")
@@ -549,7 +614,7 @@ func oracleC13(p *Plan, r *c13Result) []Violation {
 		return out
 	}
 	// outcome once the transient failures have cleared
-	ahead := ex["wsize"] >= 0 && uint64(ex["wsize"]) > uint64(ex["lsize"]) && ex["compete"] == 0
+	ahead := ex["wsize"] >= 0 && c13WSize(ex) > uint64(ex["lsize"]) && ex["compete"] == 0
 	consistent := ex["wsize"] < 0 || ex["real"] == 0 || PrefixCompatible(ld.Branches[ex["wbranch"]], ld.Branches[ex["lbranch"]], uint64(ex["wsize"]))
 	if ex["wsize"] == 0 && ex["real"] == 1 && ex["lsize"] > 0 {
 		consistent = false // a real witness at size 0 refuses growth (finding F2, C08's business)
@@ -582,6 +647,11 @@ func oracleC13(p *Plan, r *c13Result) []Violation {
 		}
 	}
 	return out
+}
+
+// c13WSize is the size the (stub) witness holds: Extra["wsize"], plus 2^63 if Extra["wbig"] is set.
+func c13WSize(ex map[string]int64) uint64 {
+	return uint64(ex["wsize"]) | uint64(ex["wbig"])<<63
 }
 
 func callString(cs []*feedCall) string {
@@ -647,6 +717,24 @@ func init() {
 			default:
 				notes["cp"] = "fetchfail"
 				ex["wsize"], ex["lsize"] = int64(r.Range(1, 20)), int64(r.Range(21, 40))
+			}
+			if r.Chance(0.06) {
+				// sizes 2^63 or more apart (a log can sign any size): comparisons must not go through signed arithmetic
+				ex["real"], ex["lbranch"] = 0, 0
+				delete(notes, "cp")
+				switch r.IntN(3) {
+				case 0: // the log is far ahead: one justified step
+					ex["wsize"], ex["lsize"] = int64(r.Range(1, 300)), int64(uint64(1)<<63+uint64(r.Range(0, 300)))
+				case 1: // the witness is far ahead: nothing to submit
+					ex["wsize"], ex["wbig"], ex["lsize"] = int64(r.Range(0, 300)), 1, int64(r.Range(1, 300))
+				default: // both beyond 2^63
+					ex["wsize"], ex["wbig"] = int64(r.Range(0, 300)), 1
+					ex["lsize"] = int64(uint64(1)<<63 + uint64(ex["wsize"]) + uint64(r.Range(1, 300)))
+				}
+			}
+			if ex["real"] == 1 && ex["wsize"] >= 0 && ex["wbig"] == 0 && r.Chance(0.25) {
+				// the real witness on SQLite; one write of the feeder's update fails inside the driver (the database is busy)
+				ex["sqlite"], ex["execfail"] = 1, 1
 			}
 			if ex["real"] == 1 && ex["wsize"] >= 0 && r.Chance(0.3) && notes["cp"] == "" {
 				ex["compete"] = 1
